@@ -406,6 +406,29 @@ def call_brackets(src):
     return out
 
 
+def keyword_equals(src):
+    """[(position directly behind the "=", keyword)] for keyword arguments name=... of calls"""
+    toks = [t for t in tokenize.generate_tokens(io.StringIO(src).readline)
+            if t.type not in (tokenize.NL, tokenize.NEWLINE, tokenize.INDENT, tokenize.DEDENT, tokenize.COMMENT)]
+    out = []
+    depth_is_call = []
+    for i, t in enumerate(toks):
+        if t.type == tokenize.OP and t.string in '([{':
+            prev = toks[i - 1] if i else None
+            prev2 = toks[i - 2] if i > 1 else None
+            is_call = t.string == '(' and prev is not None and (
+                (prev.type == tokenize.NAME and not keyword.iskeyword(prev.string)) or prev.string in (')', ']'))
+            if is_call and prev2 is not None and prev2.string in ('def', 'class'):
+                is_call = False
+            depth_is_call.append(is_call)
+        elif t.type == tokenize.OP and t.string in ')]}':
+            depth_is_call.pop()
+        elif t.type == tokenize.OP and t.string == '=' and depth_is_call and depth_is_call[-1] and i >= 2 \
+                and toks[i - 1].type == tokenize.NAME and toks[i - 2].string in ('(', ','):
+            out.append((t.end, toks[i - 1].string))
+    return out
+
+
 class C11f(Obligation):
     id = 'C11.f'
     title = 'bracket_start is the opening parenthesis of the innermost call around the cursor, for every cursor'
@@ -448,6 +471,13 @@ class C11f(Obligation):
         if got is not None:
             ctx.check(ctx.Or(*[ctx.And(got == o, _lt(ctx, o, pos), _le(ctx, pos, c)) for o, c in brackets]),
                       'a reported bracket is a call parenthesis that surrounds the cursor')
+            # keyword arguments: directly behind "name=" the argument under the cursor is that keyword
+            last = out.value._list_arguments()[-1] if out.value._list_arguments() else None
+            for (eq_end, kw) in keyword_equals(src):
+                wrong = last != (0, kw, True)
+                if wrong:
+                    ctx.check(ctx.Not(ctx.And(line == eq_end[0], column == eq_end[1])),
+                              'directly behind "name=" the argument being typed is the keyword argument name')
 
 
 def _lt(ctx, a, b):
